@@ -28,7 +28,7 @@ from pyvc.values import NONE, VBool, VInt, VRef, VSeq, VStr, VTuple, VType, VUnk
 from pyvc.verify import Maker, p_bool, p_int, p_str
 from contracts import c05spec as sp
 from contracts import c05lemmas as lem
-from contracts.c05exec import PH, PTok, PV, SerExecutor, DICTSUB, hname, istype, BUILTIN_CLASS_NAMES
+from contracts.c05exec import PH, PTok, PV, SerExecutor, DICTSUB, hname, istype, cls_name, tname, BUILTIN_CLASS_NAMES
 
 SER_PY = "sharepoint2text/parsing/extractors/serialization.py"
 DT_PY = "sharepoint2text/parsing/extractors/data_types.py"
@@ -60,8 +60,27 @@ def p_pv(only=None):
     return Maker(lambda ex, st, name: [(None, PV(t)) for _n, t in value_shapes(name, only)], desc="any Python value (by kind)")
 
 
-def p_hint():
-    return Maker(lambda ex, st, name: [(None, PH(z3.Const(name, H)))], desc="type hint")
+def static_ph(v):
+    """Hint term of a class object / typing construct passed where a hint is expected."""
+    if isinstance(v, PH):
+        return v
+    return PH(SerExecutor.to_ph(None, None, v)) if SerExecutor.to_ph(None, None, v) is not None else v
+
+
+def p_hint(alts=None):
+    def mk(ex, st, name):
+        h = z3.Const(name, H)
+        if alts == "optional-or-not":
+            g = z3.Const(name + ".arg", H)
+            return [(None, PH(H.HOpt(g))), (z3.Not(H.is_HOpt(h)), PH(h))]
+        return [(None, PH(h))]
+    return Maker(mk, desc="type hint", coerce=lambda v: (static_ph(v), None))
+
+
+def p_cls_or_none():
+    def mk(ex, st, name):
+        return [(None, NONE), (None, PH(H.HCls(z3.String(name + ".name"))))]
+    return Maker(mk, desc="Optional[class]", default=lambda ex, st: NONE, coerce=lambda v: (static_ph(v), None))
 
 
 def pvt(c, name):
@@ -83,8 +102,8 @@ def m_fields(ex, st, args, kwargs, node):
     if isinstance(v, PV):
         s2 = ex.fork_raise(st, sp.norm(z3.Not(V.is_DC(v.t))), "TypeError")
         return [] if s2 is None else [(s2, PTok("fields", sp.norm(V.flds(v.t))))]
-    if isinstance(v, PTok) and v.what == "cls":
-        return [(st, PTok("clsfields", v.a))]
+    if cls_name(v) is not None:
+        return [(st, PTok("clsfields", cls_name(v)))]
     return ex.havoc_call(st, "fields", args, node)
 
 
@@ -128,9 +147,9 @@ def m_get_args(ex, st, args, kwargs, node):
 
 def m_get_type_hints(ex, st, args, kwargs, node):
     v = args[0]
-    if isinstance(v, PTok) and v.what == "cls":
+    if cls_name(v) is not None:
         ex.exc_any(st.fork(), f"{ex.loc(node)} typing.get_type_hints (NameError on an unresolvable annotation)")
-        return [(st, PTok("hints", v.a))]
+        return [(st, PTok("hints", cls_name(v)))]
     return ex.havoc_call(st, "typing.get_type_hints", args, node)
 
 
@@ -245,6 +264,109 @@ def contracts(reg):
         returns=lambda c: PV(sp.SX(pvt(c, "value"), c.args["include_binary"].t)),
         ensures=[("always-a-json-object", lambda c: V.is_Dict(c.ex.to_pv(c.st, c.result)) if c.ex.to_pv(c.st, c.result) is not None else F)],
         note="SER(value) if that is an object, else {'value': SER(value)}"))
+    out.extend(decoder_contracts())
+    return out
+
+
+# ------------------------------------------------------------- the decoder --
+def registry_env():
+    """Facts about the reflective registry that the decoder relies on.  Each is an obligation of the registry
+    section (EXTRA `registry`, re-derived from data_types.py on every run):
+    no registered dataclass is named like a builtin class; every declared field hint is a covered shape."""
+    cq, fq = z3.String("c!env"), z3.String("f!env")
+    return [z3.Not(sp.REG(sv(n))) for n in BUILTIN_CLASS_NAMES + ("",)] + \
+           [z3.ForAll([cq, fq], sp.COV(sp.FH(cq, fq)), patterns=[sp.FH(cq, fq)])]
+
+
+def cov_defs(h):
+    """Definition of COV at a symbolic hint and at the argument of an outer Optional / union."""
+    return [sp.defn(sp.COV(h)), sp.defn(sp.COV(H.oarg(h))), sp.defn(sp.COV(H.uarg(h)))]
+
+
+def dv_comp_specs(ex, st, n, kind, what):
+    if what == "list":
+        it = ex.to_ph(st, st.lookup("item_type"))
+        return {"elem": lambda e: sp.DESER(e, it), "map": lambda l: sp.DESERL(l, it)}
+    if what == "kv":
+        vt = ex.to_ph(st, st.lookup("value_type"))
+        return {"elem": lambda e: sp.DESER(e, vt), "key": lambda k: k, "map": lambda kv: sp.DESERKV(kv, vt)}
+    return None
+
+
+def exp_name(c):
+    e = c.args["expected_class"]
+    return sp.NOCLS if e is NONE or not isinstance(e, PH) else sp.norm(hname(e.t))
+
+
+def kw_invariant(seen, has, val, j, cn):
+    """kwargs holds exactly the decoded entries of the processed field names that occur in the data."""
+    return lem._kwinv(seen, has, val, j, cn)
+
+
+def dd_loop_inv(lc):
+    kw = lc["kwargs"]
+    o = lc.st.obj(kw.ref)
+    if o.kind != "pvmap":
+        return F
+    has, val = o.data
+    data = lc["data"]
+    cn = cls_name(lc["cls"])
+    if not isinstance(data, PV) or cn is None:
+        return F
+    lc.st.ghost["kw_loop"] = (lc.extra["seen"], has, val, V.ents(data.t), cn)
+    return kw_invariant(lc.extra["seen"], has, val, V.ents(data.t), cn)
+
+
+def dd_construct_facts(ex, st, cn, has, val):
+    """Instance of lemma `constructor-from-keywords` (c05lemmas.L_build) at the keyword map of the loop."""
+    g = st.ghost.get("kw_loop")
+    if g is None:
+        return []
+    seen, has0, val0, j, cn0 = g
+    return [lem.BM_all(seen, has, val, j, cn)]
+
+
+def decoder_contracts():
+    out = []
+    out.append(FnContract(
+        target=f"{SER_PY}::_get_type_registry", params=[], assumed=True,
+        result_maker=lambda ex, st, ctx: PTok("registry"),
+        note="reflective registry: name -> class for the dataclasses of data_types; its content is re-derived from the AST "
+             "and cross-checked against the real function natively (obligation registry#matches-reflective-registry)"))
+    out.append(FnContract(
+        target=f"{SER_PY}::_unwrap_optional", params=[("tp", p_hint("optional-or-not"))],
+        returns=lambda c: VTuple([PH(z3.If(H.is_HOpt(pvt(c, "tp")), H.oarg(pvt(c, "tp")), pvt(c, "tp"))), VBool(H.is_HOpt(pvt(c, "tp")))]),
+        note="Optional[X] -> (X, True); anything else (including X | None on Python < 3.14) -> (tp, False)"))
+    c = FnContract(
+        target=f"{SER_PY}::_deserialize_value",
+        params=[("value", p_pv()), ("expected_type", p_hint())],
+        requires=lambda c: sp.COV(pvt(c, "expected_type")),
+        hyps=lambda c: z3.And([lem.COVH(pvt(c, "expected_type"))] + cov_defs(pvt(c, "expected_type")) + registry_env()),
+        returns=lambda c: PV(sp.DESER(pvt(c, "value"), pvt(c, "expected_type"))),
+        raises=[Raises("Exception", sub=True, label="malformed encoding (not produced by to_json)")],
+        note="computes DESER(value, expected_type) on normal return")
+    c.comp_specs = dv_comp_specs
+    out.append(c)
+    c = FnContract(
+        target=f"{SER_PY}::_deserialize_dataclass",
+        params=[("data", p_pv(only=("Dict",))), ("expected_class", p_cls_or_none())],
+        requires=lambda c: T if c.args["expected_class"] is NONE else z3.And(H.is_HCls(pvt(c, "expected_class")), sp.REG(H.cname(pvt(c, "expected_class")))),
+        hyps=lambda c: z3.And(registry_env()),
+        returns=lambda c: PV(sp.DESERDC(V.ents(pvt(c, "data")), exp_name(c))),
+        raises=[Raises("Exception", sub=True, label="malformed encoding (not produced by to_json)")],
+        loops={0: LoopSpec(inv=dd_loop_inv, label="fields")},
+        note="the class named by _type (if registered) else the expected class, every declared field decoded by its hint")
+    c.construct_facts = dd_construct_facts
+    out.append(c)
+    out.append(FnContract(
+        target=f"{SER_PY}::deserialize_extraction", params=[("data", p_pv())],
+        requires=lambda c: sp.JOK(pvt(c, "data")),       # the argument of from_json is a parsed JSON document
+        returns=lambda c: PV(sp.DESERDC(V.ents(pvt(c, "data")), sp.NOCLS)),
+        raises=[Raises("ValueError", when=lambda c: z3.Or(z3.Not(V.is_Dict(pvt(c, "data"))), z3.Not(sp.HASKEY(V.ents(pvt(c, "data")), sv("_type")))),
+                       label="not an object with a _type marker"),
+                Raises("Exception", sub=True, when=lambda c: z3.And(V.is_Dict(pvt(c, "data")), sp.HASKEY(V.ents(pvt(c, "data")), sv("_type"))),
+                       label="malformed encoding")],
+        note="from_json: objects carrying _type only"))
     return out
 
 
